@@ -110,13 +110,16 @@ CLAIMED["C16"] = dict(
 CLAIMED["C15"] = dict(
     text="Bounded model checking of the compiled decoders: Ntv2Grid::new on every buffer (arbitrary content) of "
          "length 0, 8, 11, 62 and 175 returns an error value without panic or out-of-bounds read; a well-formed "
-         "176-byte overview header decodes; BaseGrid::plain maps every 7-number header to an error or to a grid "
+         "176-byte overview header decodes; the sub grid header reader returns without panic on every 176-byte "
+         "header in either byte order; the node-section reader, for every start offset and claimed node count on 40/48 "
+         "arbitrary bytes, returns an error or exactly 2n values without reading past the end; BaseGrid::plain maps every 7-number header to an error or to a grid "
          "satisfying the representation invariant from which every query is safe (shared with C08); the Gravsoft "
          "post-parse step applies the documented unit/order conventions for 1, 2 and 3 bands.",
     note=TRUST + "M-BTREE; M-UTF8 (from_utf8 modelled as: ASCII valid, anything else rejected - an under-"
-         "approximation for non-ASCII sub grid names). Buffers of 176 bytes and more (sub grid headers, node records, "
-         "queries of decoded NTv2 grids) are thorough-tier only and may time out (reported undecided): CBMC loses "
-         "the contents and length of the heap copy the parser makes of the buffer. Outside: the Gravsoft text "
+         "approximation for non-ASCII sub grid names). Whole files of 176 bytes and more through Ntv2Grid::new followed by "
+         "a query are thorough-tier only and may time out (reported undecided): CBMC loses the contents of the heap "
+         "copy the parser makes of the buffer; the quick tier decides the header reader, the node-section reader, "
+         "BaseGrid::plain and the lookup separately. Outside: the Gravsoft text "
          "reader (BufRead/split/parse on text), .gsa/.gsb twin equality, shipped files, Plain's file lookup.",
     technique="Kani/CBMC bounded model checking (SAT) of the byte-level decoders on arbitrary buffer contents",
     design="4 (C15)")
